@@ -116,3 +116,36 @@ Proof.
   unfold holdings in Hp. rewrite Hc1, Hl1, Hhand in Hp. simpl in Hp. rewrite app_nil_r in Hp.
   intros c Hin. apply (Permutation_in _ Hp) in Hin. apply in_app_or in Hin. exact Hin.
 Qed.
+
+(* ---------- the channel operations of the client never hit a closed channel ---------- *)
+Definition collecting (p : mpc) : bool := match p with MSoftWait _ | MHardWait _ _ => true | _ => false end.
+Definition hard_collecting (p : mpc) : bool := match p with MHardWait _ _ => true | _ => false end.
+
+(* ackerChan is closed and ackerAbort signalled only by collectLeftovers, which runs once per session *)
+Lemma closed_only_collecting : forall P s, reach P s -> forall ss, cur s = Some ss ->
+  (s_aclosed ss = true -> collecting (pc s) = true) /\ (s_abort ss = true -> hard_collecting (pc s) = true).
+Proof.
+  intros P. apply (reach_ind P (fun s => forall ss, cur s = Some ss ->
+    (s_aclosed ss = true -> collecting (pc s) = true) /\ (s_abort ss = true -> hard_collecting (pc s) = true))).
+  - simpl. discriminate.
+  - intros s e s' _ IH Hs. destruct e; step_inv Hs; st_simpl; try assumption.
+    all: intros ss0 E; try discriminate E; try (inversion E; subst; clear E); st_simpl.
+    all: try (pose proof (IH _ eq_refl) as [I1 I2]).
+    all: try (match goal with H : cur _ = Some ?x |- _ => pose proof (IH _ H) as [I3 I4] end).
+    all: repeat match goal with H : pc _ = _ |- _ => progress rewrite H in * end.
+    all: simpl in *; try solve [intuition (try discriminate; auto)].
+    all: try solve [match goal with H : cur _ = Some ?x, H2 : cur _ = Some ?y |- _ => rewrite H in H2; inversion H2; subst; auto end].
+    all: try solve [match goal with H : cur _ = Some ?y |- _ => apply IH; exact H end].
+    all: try congruence.
+Qed.
+
+(* sendChunk never sends on a closed ackerChan: while main is at the select of sendChunk the channel is open *)
+Lemma no_send_on_closed_lemma : forall P s f c ss,
+  reach P s -> pc s = MEnqueue f c -> cur s = Some ss -> s_aclosed ss = false /\ s_abort ss = false.
+Proof.
+  intros P s f c ss Hr Hpc Hcur. destruct (closed_only_collecting P s Hr ss Hcur) as [H1 H2].
+  rewrite Hpc in *. simpl in *.
+  destruct (s_aclosed ss); [specialize (H1 eq_refl); discriminate|].
+  destruct (s_abort ss); [specialize (H2 eq_refl); discriminate|]. auto.
+Qed.
+
